@@ -64,13 +64,14 @@ type expect struct {
 }
 
 type hw struct {
-	c     *chain.Chain
-	rec   *fw.Recorder
-	r     *rand.Rand
-	vals  []*chain.Account
-	users []*chain.Account
-	uni   []string // validator universe (bech32 val addresses)
-	vidx  map[string]int
+	lateFees bool
+	c        *chain.Chain
+	rec      *fw.Recorder
+	r        *rand.Rand
+	vals     []*chain.Account
+	users    []*chain.Account
+	uni      []string // validator universe (bech32 val addresses)
+	vidx     map[string]int
 
 	jobs      map[jobKey]string
 	contracts [][]byte
@@ -99,6 +100,10 @@ type hw struct {
 type params struct {
 	Steps int `json:"steps"`
 	NVals int `json:"nvals"`
+	// LateFees: nobody has a relayer fee for bnb-main when the chain is activated and its first
+	// validator-set update is due (the state of a chain that is being on-boarded); the fees arrive
+	// a few operations into phase C
+	LateFees bool `json:"late_fees,omitempty"`
 }
 
 func (w *hw) op(kind string, args any) {
@@ -321,6 +326,9 @@ func (w *hw) phaseA() {
 		fees := map[string]string{}
 		for _, ch := range allChains {
 			if i < 3 && ch != chNew || r.Intn(5) > 0 {
+				if w.lateFees && ch == chBnb {
+					continue
+				}
 				fees[ch] = pick(r, multPool)
 			}
 		}
@@ -782,6 +790,38 @@ func (w *hw) skywaySendAndBatch(ch string) {
 	w.observe(ex)
 }
 
+// lateFeesArrive: every validator sets its relayer fee for bnb-main (one block), then the pending
+// first validator-set update of that chain is published and delivered like in phase B.
+func (w *hw) lateFeesArrive() {
+	c := w.c
+	w.op("late-fees", chBnb)
+	mult := pick(w.r, multPool)
+	if !w.txBlock(w.vals, func(v *chain.Account) sdk.Msg { return world.MsgRelayerFee(v, map[string]string{chBnb: mult}) }) {
+		return
+	}
+	w.observe(nil)
+	w.rec.Count("late_fee_histories", 1)
+	for _, it := range w.prevQ[chBnb] {
+		if it.Kind == "valset" {
+			w.rec.Count("late_fee_valset_update_already_queued", 1)
+		}
+	}
+	w.op("publish-snapshot", nil)
+	snap, err := c.App.ValsetKeeper.GetCurrentSnapshot(c.Ctx())
+	if err == nil && snap != nil {
+		cctx, write := c.Ctx().CacheContext()
+		if err := c.App.EvmKeeper.PublishSnapshotToAllChains(cctx, snap, true); err == nil {
+			write()
+		}
+	}
+	w.observe(nil)
+	for _, it := range w.prevQ[chBnb] {
+		if it.Kind == "valset" {
+			w.deliverFully(chBnb, it.ID, 8)
+		}
+	}
+}
+
 func (w *hw) upsertFee() {
 	i := w.r.Intn(len(w.vals))
 	v := w.vals[i]
@@ -868,6 +908,10 @@ func (w *hw) phaseC(steps int) {
 	r := w.r
 	live := []string{chEth, chBnb}
 	for s := 0; s < steps && !w.stop; s++ {
+		if w.lateFees && s == 4 {
+			w.lateFeesArrive()
+			continue
+		}
 		if w.c.Height-w.lastKA > 35 {
 			w.op("keep-alive", nil)
 			w.keepAlive()
@@ -983,6 +1027,7 @@ func runHistory(cs fw.Case, tier string, rec *fw.Recorder) {
 		rec.Inconclusive("bring-up: " + err.Error())
 		return
 	}
+	w.lateFees = p.LateFees
 	defer w.c.Close()
 	defer func() {
 		if e := recover(); e != nil {
